@@ -5,8 +5,8 @@ slot, comments, PIs).  For every node, a grid of ambient filters D (default_filt
   (a) correspondence: every navigation result of the real API == Conc/CNav.v evaluated in Coq on the dumped concrete
       structure (lxml slots + chains of text objects), for all D of the grid;
   (b) direct search: the relations the property states, checked on the real API results, with Tree/ANav.v evaluated in
-      Coq on the plain tree (read through iterate_children only) as the oracle, for the ambient filters under which the
-      statement is unambiguous: none, the library default (tag or text), tags only.
+      Coq on the plain tree (read through iterate_children only) as the oracle: the routines whose theorem is unguarded
+      (UNGUARDED below) under all ambient filters, the others under none, the library default (tag or text), tags only.
 """
 import json
 import sys
